@@ -1357,8 +1357,13 @@ fn builtin_pcap_read_all(args: Vec<Rc<Object>>) -> Result<Rc<Object>, String> {
                         if e.kind() == io::ErrorKind::UnexpectedEof {
                             break;
                         }
-                        // For other IO errors, return the error
-                        return Ok(Rc::new(Object::Err(ErrorObj::IO(e))));
+                        // For other IO errors, return the error - unless some
+                        // packets were read before it: those are returned and
+                        // the next read reports the error
+                        if packets.is_empty() {
+                            return Ok(Rc::new(Object::Err(ErrorObj::IO(e))));
+                        }
+                        break;
                     }
                 }
             }
